@@ -49,9 +49,12 @@ VetoOK(c) ==
                            ELSE c.veto[2] \in {"PreReadHeader", "PostReadPushHeader", "PreReadPushBody", "PostReadPushBody"}
      /\ (c.veto[1] \in {"G", "H"} => c.veto[2] \notin HdrStages /\ c.route = "reg")
 
-Cfgs == {c \in [kind : Kinds, route : Routes, prof : ProfSets, veto : Vetoes,
+\* vkind: the selected hook returns a non-OK status ("veto") or panics ("panic", server-side plugins only)
+Cfgs == {c \in [kind : Kinds, route : Routes, prof : ProfSets, veto : Vetoes, vkind : {"veto", "panic"},
                 hout : Houts, dec : {"ok", "bad"}, rdec : {"ok", "bad"}] :
            /\ VetoOK(c)
+           /\ (c.vkind = "panic" => c.veto # NoVeto /\ c.veto[1] # "CL" /\ c.veto[2] # "PreReadHeader")
+           /\ (c.hout = "unpackable" => c.kind = "call" /\ c.route = "reg")
            /\ (c.kind = "push" => c.rdec = "ok")
            /\ (c.route # "reg" => c.dec = "ok" /\ (c.route = "unreg" => c.hout = "ok"))}
 
@@ -102,7 +105,8 @@ SPostHeader == \* postReadCallHeader / postReadPushHeader on g, then route looku
   /\ pc = "sPostHeader"
   /\ LET st == IF cfg.kind = "call" THEN "PostReadCallHeader" ELSE "PostReadPushHeader" IN
      /\ hooks' = hooks \o Log(G_, st)
-     /\ IF Vetoed(G_, st) THEN stat' = "veto" /\ pc' = "sHandle" /\ UNCHANGED cont
+     /\ IF Vetoed(G_, st) /\ cfg.vkind = "panic" THEN stat' = "panic" /\ pc' = "sReaderPanic" /\ UNCHANGED cont
+        ELSE IF Vetoed(G_, st) THEN stat' = "veto" /\ pc' = "sHandle" /\ UNCHANGED cont
         ELSE IF cfg.route = "unreg" THEN stat' = "404" /\ pc' = "sHandle" /\ UNCHANGED cont
         ELSE /\ cont' = (IF cfg.route = "reg" THEN R_ ELSE U_) /\ pc' = "sPreBody" /\ UNCHANGED stat
   /\ UNCHANGED <<cfg, chooks, invoked, replies, wstat, cstat, disc, written>>
@@ -110,9 +114,9 @@ SPreBody ==    \* preReadCallBody / preReadPushBody on the route's chain; then t
   /\ pc = "sPreBody"
   /\ LET st == IF cfg.kind = "call" THEN "PreReadCallBody" ELSE "PreReadPushBody" IN
      /\ hooks' = hooks \o Log(cont, st)
-     /\ stat' = IF Vetoed(cont, st) THEN "veto"
+     /\ stat' = IF Vetoed(cont, st) THEN (IF cfg.vkind = "panic" THEN "panic" ELSE "veto")
                 ELSE IF cfg.dec = "bad" /\ cfg.route = "reg" THEN "400" ELSE "ok"
-  /\ pc' = "sHandle"
+     /\ pc' = IF Vetoed(cont, st) /\ cfg.vkind = "panic" THEN "sReaderPanic" ELSE "sHandle"
   /\ UNCHANGED <<cfg, cont, chooks, invoked, replies, wstat, cstat, disc, written>>
 \* ---- receiver: handleCall / handlePush
 SHandle ==     \* postReadCallBody / postReadPushBody, then the handler
@@ -120,21 +124,30 @@ SHandle ==     \* postReadCallBody / postReadPushBody, then the handler
   /\ IF stat = "ok"
        THEN LET st == IF cfg.kind = "call" THEN "PostReadCallBody" ELSE "PostReadPushBody" IN
             /\ hooks' = hooks \o Log(cont, st)
-            /\ IF Vetoed(cont, st) THEN stat' = "veto" /\ UNCHANGED invoked
+            /\ IF Vetoed(cont, st) THEN stat' = (IF cfg.vkind = "panic" THEN "500" ELSE "veto") /\ UNCHANGED invoked
                ELSE /\ invoked' = invoked + 1
-                    /\ stat' = CASE cfg.hout = "ok" -> "ok" [] cfg.hout = "status" -> "hstat" [] cfg.hout = "panic" -> "500"
+                    /\ stat' = CASE cfg.hout \in {"ok", "unpackable"} -> "ok" [] cfg.hout = "status" -> "hstat" [] cfg.hout = "panic" -> "500"
        ELSE UNCHANGED <<hooks, stat, invoked>>
   /\ pc' = IF cfg.kind = "push" THEN "end" ELSE "sPreReply"
   /\ UNCHANGED <<cfg, cont, chooks, replies, wstat, cstat, disc, written>>
+\* the deferred recover of handleCall already wrote the reply: no reply-stage hooks run
+Recovered == (cfg.hout = "panic" /\ invoked = 1) \/
+             (cfg.vkind = "panic" /\ cfg.veto[2] = "PostReadCallBody" /\ \E i \in 1..Len(hooks) : hooks[i] = cfg.veto)
+
 SPreReply ==   \* preWriteReply (not after a panic: the deferred recover writes the reply directly)
   /\ pc = "sPreReply"
-  /\ IF stat = "500" /\ cfg.hout = "panic" /\ invoked = 1
-       THEN UNCHANGED hooks ELSE hooks' = hooks \o Log(cont, "PreWriteReply")
+  /\ IF Recovered
+       THEN UNCHANGED <<hooks, stat>>
+       ELSE /\ hooks' = hooks \o Log(cont, "PreWriteReply")
+            \* a panicking PreWriteReply hook is recovered: the reply carries the handler's status, or 500 if that was OK
+            /\ stat' = IF Vetoed(cont, "PreWriteReply") /\ cfg.vkind = "panic" /\ stat = "ok" THEN "500" ELSE stat
   /\ pc' = "sWrite"
-  /\ UNCHANGED <<cfg, cont, stat, chooks, invoked, replies, wstat, cstat, disc, written>>
+  /\ UNCHANGED <<cfg, cont, chooks, invoked, replies, wstat, cstat, disc, written>>
 SWrite ==      \* writeReply; postWriteReply
-  /\ pc = "sWrite" /\ replies' = replies + 1 /\ wstat' = stat
-  /\ IF stat = "500" /\ cfg.hout = "panic" /\ invoked = 1
+  /\ pc = "sWrite" /\ replies' = replies + 1
+     \* a result that cannot be marshalled makes the first write fail; the handler context then replies 500
+  /\ wstat' = IF cfg.hout = "unpackable" /\ invoked = 1 /\ stat = "ok" THEN "500" ELSE stat
+  /\ IF Recovered \/ (Vetoed(cont, "PreWriteReply") /\ cfg.vkind = "panic") \/ (cfg.hout = "unpackable" /\ invoked = 1 /\ stat = "ok")
        THEN UNCHANGED hooks ELSE hooks' = hooks \o Log(cont, "PostWriteReply")
   /\ pc' = "cReadHeader"
   /\ UNCHANGED <<cfg, cont, stat, chooks, invoked, cstat, disc, written>>
@@ -157,7 +170,12 @@ CReply ==      \* body decode, wire status, postReadReplyBody
               /\ cstat' = IF CliVeto("PostReadReplyBody") THEN "veto" ELSE "ok"
   /\ UNCHANGED <<cfg, cont, stat, hooks, invoked, replies, wstat, disc, written>>
 
-Next == CPreWrite \/ CPostWrite \/ SPreHeader \/ SPostHeader \/ SPreBody \/ SHandle \/ SPreReply \/ SWrite \/ CReadHeader \/ CReply
+SReaderPanic == \* a plugin panicking inside the read loop (header / pre-body stage): recovered by the reader, which disconnects
+  /\ pc = "sReaderPanic" /\ pc' = "end" /\ disc' = TRUE
+  /\ IF cfg.kind = "call" THEN cstat' = "connerr" ELSE UNCHANGED cstat
+  /\ UNCHANGED <<cfg, cont, stat, hooks, chooks, invoked, replies, wstat, written>>
+
+Next == SReaderPanic \/ CPreWrite \/ CPostWrite \/ SPreHeader \/ SPostHeader \/ SPreBody \/ SHandle \/ SPreReply \/ SWrite \/ CReadHeader \/ CReply
 Spec == Init /\ [][Next]_vars
 
 -----------------------------------------------------------------------------
@@ -170,7 +188,7 @@ OneReply == Done /\ written /\ ~disc => (IF cfg.kind = "call" THEN replies = 1 E
 \* C09: each (plugin, stage) at most once per message
 HookOnce == \A i, j \in 1..Len(hooks) : i # j => hooks[i] # hooks[j]
 \* C09: a veto before the handler => handler not invoked and the caller gets that status
-VetoStops == Done /\ cfg.veto # NoVeto /\ cfg.veto[1] # "CL" /\ cfg.veto[2] \in PreHandlerStages
+VetoStops == Done /\ cfg.veto # NoVeto /\ cfg.vkind = "veto" /\ cfg.veto[1] # "CL" /\ cfg.veto[2] \in PreHandlerStages
              /\ (\E i \in 1..Len(hooks) : hooks[i] = cfg.veto)
              => invoked = 0 /\ (cfg.kind = "call" => cstat = "veto")
 \* C09: a vetoing pre-write hook on the calling side => nothing written
